@@ -98,8 +98,9 @@ class SdcLocation:
         """Check if location in scope is inside own location."""
         try:
             other = self.__class__.from_scope_string(scope_text)
-        except UrlSchemeError:
-            # Scope has different scheme, no match
+        except (UrlSchemeError, ValueError):
+            # Scope has different scheme, or is not a well-formed location scope (wrong number of
+            # path segments, authority rejected by urlsplit): no match
             return False
         else:
             return other in self
